@@ -148,6 +148,9 @@ func makeCert(d certDesc) (*x509.Certificate, error) {
 		parent.SubjectKeyId = []byte{0x55, byte(d.aki)}
 	}
 	var signer *sm2.PrivateKey
+	if d.signer == entrustKeyID {
+		return nil, fmt.Errorf("nobody can sign with the Entrust key")
+	}
 	if d.signer <= 0 {
 		k, err := sm2.GenerateKey(rand.Reader) // garbage signature: a key nobody has
 		if err != nil {
@@ -161,12 +164,21 @@ func makeCert(d certDesc) (*x509.Certificate, error) {
 	if err != nil {
 		return nil, err
 	}
+	if d.key == entrustKeyID { // the subject key is the Entrust RSA public key (c10parents.go)
+		if der, err = withEntrustKey(der, signer); err != nil {
+			return nil, err
+		}
+	}
 	if d.vers == 1 || d.vers == 2 {
 		if der, err = downgradeCert(der, d.vers, signer); err != nil {
 			return nil, err
 		}
 	}
-	return x509.ParseCertificate(der)
+	c, err := x509.ParseCertificate(der)
+	if err == nil && d.key == entrustKeyID && string(c.RawSubjectPublicKeyInfo) != string(entrustSPKI) {
+		return nil, fmt.Errorf("the Entrust SubjectPublicKeyInfo was not reproduced")
+	}
+	return c, err
 }
 
 // downgradeCert turns a v3 certificate into an X.509 v1 or v2 one: the version field is dropped (v1) or set
@@ -581,6 +593,7 @@ func genC10(r *rng, tier string, emit func(string)) {
 		}
 		emit(fmt.Sprintf("chain %s %s,%s,%s%s", strings.Join(cs, ";"), nowS, host, usages, extra))
 	}
+	genC10Parents(r, tier, emit) // directed: renewed CA certificates / key-identifier shadowing, non-CA trust anchors
 }
 
 func (r *rng) pick2(xs []string) string { return xs[r.intn(len(xs))] }
